@@ -55,6 +55,10 @@ func (m *monDump) Event(ev *hermes.VerifEvent, rc *RunCtx) {
 			base = base[:k] + base[e+1:]
 		}
 		f := v
+		if strings.HasPrefix(base, "N.") && ev.N != nil {
+			f = reflect.ValueOf(ev.N).Elem()
+			base = base[2:]
+		}
 		for _, part := range strings.Split(base, ".") {
 			f = f.FieldByName(part)
 			if !f.IsValid() {
